@@ -786,6 +786,9 @@ impl LdapConnAsync {
     }
 
     async fn turn(mut self, mode: LoopMode) -> Result<Self> {
+        // In single-op mode: whether the operation has been received from the handle yet. Until
+        // then there is nothing whose completion could end the turn.
+        let mut op_received = false;
         loop {
             #[cfg(ldap3_verif)]
             {
@@ -806,6 +809,7 @@ impl LdapConnAsync {
                 },
                 op_tuple = self.rx.recv() => {
                     if let Some((id, op, tag, controls, tx)) = op_tuple {
+                        op_received = true;
                         let unbinding = matches!(op, LdapOp::Unbind);
                         if let LdapOp::Search(ref search_tx) = op {
                             self.searchmap.insert(id, search_tx.clone());
@@ -884,8 +888,11 @@ impl LdapConnAsync {
                 resp = self.stream.next() => {
                     let (id, (tag, controls)) = match resp {
                         // In single-op mode, the end of the stream while the operation is
-                        // still waiting for its response is a failure of that operation.
-                        None if matches!(mode, LoopMode::SingleOp) && !self.resultmap.is_empty() => {
+                        // still waiting for its response, or before it has even been sent,
+                        // is a failure of that operation.
+                        None if matches!(mode, LoopMode::SingleOp)
+                            && (!op_received || !self.resultmap.is_empty()) =>
+                        {
                             return Err(LdapError::from(io::Error::new(
                                 io::ErrorKind::UnexpectedEof,
                                 "connection closed",
@@ -943,7 +950,7 @@ impl LdapConnAsync {
             if let LoopMode::SingleOp = mode {
                 // The single operation is over when its response has been handed over; a message
                 // for another id (e.g., an unsolicited notification) doesn't end the turn.
-                if self.resultmap.is_empty() {
+                if op_received && self.resultmap.is_empty() {
                     break;
                 }
             }
